@@ -38,8 +38,9 @@ type Session struct {
 	Samples      int           `json:"samples"`
 	NSites       int           `json:"nsites"`
 	StopOnViol   bool          `json:"stop_on_violation"`
-	Variant      string        `json:"variant,omitempty"` // which worker binary runs this session ("" = as shipped, "small" = capacity knobs shrunk)
-	Words        []string      `json:"words,omitempty"`   // extra dictionary words (literals new relative to the baseline tree)
+	Variant      string        `json:"variant,omitempty"`   // which worker binary runs this session ("" = as shipped, "small" = capacity knobs shrunk)
+	Words        []string      `json:"words,omitempty"`     // extra dictionary words (literals new relative to the baseline tree)
+	SimProcs     int           `json:"sim_procs,omitempty"` // value runtime.GOMAXPROCS(0)/NumCPU() report to the library (VERIF_SIM_PROCS)
 }
 
 type ECall struct {
